@@ -39,6 +39,9 @@ func Multi(errs ...error) error {
 
 type multiError []error
 
+// Unwrap returns the errors that were combined.
+func (me multiError) Unwrap() []error { return me }
+
 func (me multiError) Error() string {
 	var sb strings.Builder
 	sb.WriteString("multiple errors: ")
